@@ -1,6 +1,6 @@
 import io
 from hashlib import sha256
-from impl import op, hx, unhx, err, mkfile
+from impl import op, hx, unhx, err, mkfile, CStream
 import impl_bf3 as b3
 import register_crypto_plugin as plugin
 import bec2format.crypto as crypto
@@ -217,7 +217,7 @@ def show_file(f):
 @guard
 def bec2_read(chk, es, b):
     with Oracle((), FRESH_KEY):          # `session_key or random_bytes(16)` in the constructor the reader calls
-        f = Bec2File.read_file(io.StringIO(b3.to_text(unhx(b))), parse_encs(es), chk == "1")
+        f = Bec2File.read_file(CStream(b3.to_text(unhx(b))), parse_encs(es), chk == "1")
     return "ok " + show_file(f)
 
 
@@ -225,7 +225,7 @@ def bec2_read(chk, es, b):
 @guard
 def bec2_readtext(chk, es, t):
     with Oracle((), FRESH_KEY):
-        f = Bec2File.read_file(io.StringIO(b3.parse_str(t)), parse_encs(es), chk == "1")
+        f = Bec2File.read_file(CStream(b3.parse_str(t)), parse_encs(es), chk == "1")
     return "ok " + b3.show_comments(f.bf3file.comments) + " " + show_file(f)
 
 
@@ -388,7 +388,7 @@ def prop_c04bec2(k, bs, cs, es, ephs, what, stride, offset):
     encs = parse_encs(es)
 
     def read(t):
-        return Bec2File.read_file(io.StringIO(t), encs)          # the MAC check is the default
+        return Bec2File.read_file(CStream(t), encs)          # the MAC check is the default
 
     def known(f):
         return [show_block(b) for b in f.auth_blocks.values() if not isinstance(b, UnknownAuthBlock)]
@@ -555,7 +555,7 @@ def prop_c02(k, bs, cs, es, ephs):
             f0 = Bec2File(mkfile({}, b3.parse_comps(cs) if how == 0 else iter(b3.parse_comps(cs))),
                           block_objs if how == 0 else (tuple(block_objs) if how == 1 else (b for b in block_objs)), key)
             if key[2] % 2:
-                s = io.StringIO()
+                s = CStream()
                 f0.write_file(s, wencs)
                 text = s.getvalue()
             else:
@@ -591,7 +591,7 @@ def prop_c02(k, bs, cs, es, ephs):
                 n += 1
                 try:
                     if n % 3:
-                        f = Bec2File.read_file(io.StringIO(text), order, True)
+                        f = Bec2File.read_file(CStream(text), order, True)
                     else:
                         pth = b3.tmp_path()
                         try:
@@ -651,7 +651,7 @@ def prop_c06(k, cs, code, ckey):
                     binary = b3.BF3_FILE_SIG + mkfile({}, b3.parse_comps(cs)).to_binary(5, key)
                 else:
                     # the way files are really written: write_file(stream, session_key) - text, of which the hex part is taken
-                    out = io.StringIO()
+                    out = CStream()
                     mkfile({}, b3.parse_comps(cs)).write_file(out, key)
                     tl = out.getvalue().split("\n")
                     binary = bytes.fromhex("".join(tl[tl.index("") + 1:]))
@@ -695,9 +695,9 @@ def prop_c06(k, cs, code, ckey):
         # read back
         try:
             if framing == "bf3":
-                got = Bf3File.read_file(io.StringIO(b3.to_text(binary)), True, key).components
+                got = Bf3File.read_file(CStream(b3.to_text(binary)), True, key).components
             else:
-                back = Bec2File.read_file(io.StringIO(b3.to_text(binary)), [SoftwareCustKeyEncryptor(bytes(range(16)), ckey, 0)], True)
+                back = Bec2File.read_file(CStream(b3.to_text(binary)), [SoftwareCustKeyEncryptor(bytes(range(16)), ckey, 0)], True)
                 if back.session_key != key:
                     return f"FAIL {framing}: the file reads back with another session key than the writing object reports"
                 got = back.bf3file.components
@@ -847,7 +847,7 @@ def prop_c07splice(k1, k2, bs, es, ephs):
     body = Bf3File().to_binary(len(hdr), unhx(k1))
     decs = [_matching_decryptor(x, wencs) for x in Bec2File(Bf3File(), parse_blocks(bs), unhx(k1)).auth_blocks.values()]
     try:
-        f = Bec2File.read_file(io.StringIO(b3.to_text(hdr + body)), decs, True)
+        f = Bec2File.read_file(CStream(b3.to_text(hdr + body)), decs, True)
     except bec2.Bec2FileFormatError:
         pass
     except Exception as e:
@@ -895,7 +895,7 @@ def prop_c07splice(k1, k2, bs, es, ephs):
             body2 = Bf3File().to_binary(len(hdr2), k1b)
             try:
                 with Oracle((), FRESH_KEY):
-                    f = Bec2File.read_file(io.StringIO(b3.to_text(hdr2 + body2)), decs, True)
+                    f = Bec2File.read_file(CStream(b3.to_text(hdr2 + body2)), decs, True)
             except Exception:
                 continue
             return (f"FAIL block {i} re-wrapped around {what} session key next to blocks that wrap {k1}: accepted with key "
@@ -925,7 +925,7 @@ def prop_c07unknown(k, bs, es, ephs, ephs2, keep):
                for e in wencs if isinstance(e, EccEncryptor) and e is not dec]
     for rlist, what in (([dec], "one decryptor"), ([dec] + pubonly, "one decryptor + the writer's public-key encryptors")):
         try:
-            f = Bec2File.read_file(io.StringIO(b3.to_text(a)), list(rlist), True)
+            f = Bec2File.read_file(CStream(b3.to_text(a)), list(rlist), True)
         except Exception as e:
             return f"FAIL reading with {what} raises {type(e).__name__}: {e}"
         with Oracle(parse_nats(ephs2)):
@@ -946,7 +946,7 @@ def prop_c07unknown(k, bs, es, ephs, ephs2, keep):
     if f.session_key != key:
         return f"FAIL the file object read with a subset of decryptors carries session key {f.session_key.hex()} instead of {key.hex()}"
     try:
-        g2 = Bec2File.read_file(io.StringIO(b3.to_text(b)), list(wencs) + [dec], True)
+        g2 = Bec2File.read_file(CStream(b3.to_text(b)), list(wencs) + [dec], True)
     except Exception as e:
         return f"FAIL the re-written file is not readable with all decryptors: {type(e).__name__}: {e}"
     if g2.session_key != key:
